@@ -715,6 +715,8 @@ def unmodelled(*values):
         if not plain(v):
             continue
         out |= {n for n in X.fn_names(v) if n.startswith(("call:", "attr:", "apply", "kw:")) and n not in ("attr:real", "attr:imag")}
+        if X.uninitialised(v):
+            out.add("empty (the contents of a freshly allocated array read as data: the stores that fill it were not followed)")
     return sorted(out)
 
 
